@@ -265,18 +265,20 @@ structure Response extends Answer where
   additional : List RRset
   deriving Repr
 
-/-- `is_referral` of `build_authoritative_response`: the first record is an NS record and the
-query was neither for NS nor for ANY -/
-def isReferral (answers : List RRset) (qtype : Nat) : Bool :=
+/-- `is_referral` of `build_authoritative_response` (as repaired by /repo af8bb96): the first
+record of the lookup result is an NS record whose owner is not the zone origin — the NS RRset of
+a delegation point — whatever the query type -/
+def isReferral (origin : LName) (answers : List RRset) : Bool :=
   match answers with
-  | r :: _ => r.type == T_NS && qtype != T_NS && qtype != T_ANY
+  | r :: _ => r.type == T_NS && r.name != origin
   | [] => false
 
 def okAnswers : Except LookupErr (Nat × List RRset × Option RRset) → List RRset
   | .ok (_, a, _) => a
   | .error _ => []
 
-/-- `build_authoritative_response` without the additional section (DO clear / unsigned zone) -/
+/-- `build_authoritative_response` without the additional section (DO clear / unsigned zone):
+AA is cleared on a referral, the apex NS RRset accompanies a successful SOA lookup only -/
 def buildAuthoritative (z : Zone) (origin : LName) (q : Query) : Answer :=
   match lookupAnswers z origin q.name q.type with
   | .error .refused => { rcode := .refused, aa := true, answers := [], authority := [] }
@@ -285,9 +287,10 @@ def buildAuthoritative (z : Zone) (origin : LName) (q : Query) : Answer :=
     { rcode := if e == .nxDomain then .nxDomain else .noError, aa := true,
       answers := [], authority := soa }
   | .ok (_, answers, _) =>
-    let ns := if q.type == T_SOA then okAnswers (lookupAnswers z origin origin T_NS) else []
-    if isReferral answers q.type then
-      { rcode := .noError, aa := true, answers := [], authority := answers ++ ns }
+    let ref := isReferral origin answers
+    let ns := if q.type == T_SOA && !ref then okAnswers (lookupAnswers z origin origin T_NS) else []
+    if ref then
+      { rcode := .noError, aa := false, answers := [], authority := answers ++ ns }
     else
       { rcode := .noError, aa := true, answers := answers, authority := ns }
 
